@@ -818,6 +818,9 @@ pub fn c34_findings_out_of_scope() {
 }
 pub fn avoid(part: &str) -> bool {
     use std::sync::OnceLock;
+    if crate::engine::driver::strict_sig_contains(part) {
+        return false;
+    }
     if part.starts_with("C34:") && C34_OUT_OF_SCOPE.load(std::sync::atomic::Ordering::Relaxed) {
         return true;
     }
